@@ -1,4 +1,5 @@
 import SpecVerif.Proofs.C13
+import SpecVerif.Model.C13Pair
 /-!
 # C13 — KeyedList is a list with unique keys and a coherent key index
 
@@ -9,7 +10,9 @@ correspondence check runs against `spec_classes.types.keyed.KeyedList`.
 Quantification: any item type `α`, key type `κ` (decidable equality), any key
 function, any typed/untyped configuration, any container state satisfying the
 coherence invariant `Coh` (which every reachable state does: `coh_run`), any
-operation, any operation sequence of any length.
+operation, any operation sequence of any length. Last section: TWO containers with unrelated
+configurations and the operations that take one of them as the operand of the other
+(`Model/C13Pair.lean`).
 -/
 set_option linter.unusedSectionVars false
 set_option linter.unusedSimpArgs false
@@ -1202,5 +1205,353 @@ example : indexOfE exEqv exKLE (2, 5) = .ok 0 ∧ indexForKey exCfgE exKLE 2 = .
 example : (stepE exCfgE exEqv exKLE (.delKey 2)).1.list = [(1, 5), (3, 7)] := by decide
 example : (stepE exCfgE exEqv exKLE (.remove (9, 5))).1 = ⟨[(2, 5), (3, 7)], [(2, (2, 5)), (3, (3, 7))]⟩ := by rfl
 example : (stepE exCfgE exEqv exKLE (.count (0, 5))).2 = .nat 2 := by rfl
+
+/-! # Two containers at once: a KeyedList as the operand of another one (`Model/C13Pair.lean`) -/
+
+/-! ## the constructor -/
+
+/-- On an unparameterised configuration, `ofList` (successive inserts) is: ValueError iff the keys
+collide, else the items in order with the index in the same order. -/
+theorem ofList_untyped {c : Cfg α κ} (hc : ∀ x, c.okItem x = true) : ∀ (xs : List α) {l : KL α κ}, Coh c l →
+    ofList c xs l =
+      if ((l.list ++ xs).map c.key).Nodup
+      then .ok ⟨l.list ++ xs, l.dict ++ xs.map (fun x => (c.key x, x))⟩
+      else .error .valueError
+  | [], l, h => by
+    simp [ofList, h.keysNodup]
+  | x :: xs, l, h => by
+    simp only [ofList]
+    rw [insert_refines h]
+    by_cases hdup : ∃ y ∈ l.list, c.key y = c.key x
+    · have hnd : ¬ ((l.list ++ x :: xs).map c.key).Nodup := by
+        obtain ⟨y, hy, hk⟩ := hdup
+        rw [List.map_append, List.nodup_append]
+        rintro ⟨_, _, h3⟩
+        exact h3 _ (List.mem_map.2 ⟨y, hy, rfl⟩) _ (List.mem_map.2 ⟨x, by simp, rfl⟩) hk
+      rw [if_neg hnd]
+      simp [hc x, hdup]
+    · have hi : insertAt c l (Int.ofNat l.list.length) x =
+          .ok ⟨pyInsert l.list (Int.ofNat l.list.length) x, dictAdd l.dict (c.key x) x⟩ := by
+        rw [insert_refines h]; simp [hc x, hdup]
+      have hcoh := coh_insert h _ _ hi
+      simp only [hc x, hdup, Bool.true_eq_false, if_false]
+      rw [ofList_untyped hc xs hcoh]
+      simp only [pyInsert_length, dictAdd, List.append_assoc, List.singleton_append, List.map_cons]
+
+/-- **`KeyedList[T, K](xs, key=…)`**: ValueError iff two items share a key (wherever they are),
+else TypeError iff some item is inadmissible, else the items in order, indexed in order. -/
+theorem construct_refines (c : Cfg α κ) (xs : List α) :
+    construct c xs =
+      if ¬ (xs.map c.key).Nodup then .error .valueError
+      else if xs.all c.okItem = false then .error .typeError
+      else .ok ⟨xs, xs.map (fun x => (c.key x, x))⟩ := by
+  unfold construct
+  have h0 : Coh { c with okItem := fun _ => true } (KL.empty : KL α κ) := coh_empty _
+  rw [ofList_untyped (c := { c with okItem := fun _ => true }) (fun _ => rfl) xs h0]
+  simp only [KL.empty, List.nil_append]
+  by_cases hnd : (xs.map c.key).Nodup
+  · by_cases hall : xs.all c.okItem = true
+    · simp [hnd, hall]
+    · simp only [Bool.not_eq_true] at hall
+      simp [hnd, hall]
+  · simp [hnd]
+
+/-- A constructed container is coherent (for its own configuration, type parameters included). -/
+theorem coh_construct {c : Cfg α κ} {xs : List α} {l : KL α κ} (h : construct c xs = .ok l) : Coh c l := by
+  unfold construct at h
+  split at h
+  · cases h
+  · rename_i l' hl
+    have hc := coh_ofList (c := { c with okItem := fun _ => true }) xs (coh_empty _) hl
+    split at h
+    · rename_i hall
+      cases h
+      exact ⟨hc.keysNodup, hc.dictIff, hc.dictNodup, fun x hx => List.all_eq_true.1 hall x hx⟩
+    · cases h
+
+/-! ## the two-container machine -/
+
+/-- Both containers coherent, each for ITS OWN configuration (key function, type parameters). -/
+def CohP (c : Cfg2 α κ) (p : Pair α κ) : Prop := ∀ s, Coh (c.get s) (p.get s)
+
+theorem Pair.get_set_same (p : Pair α κ) (s : Side) (l : KL α κ) : (p.set s l).get s = l := by
+  cases s <;> rfl
+
+theorem Pair.get_set_flip (p : Pair α κ) (s : Side) (l : KL α κ) : (p.set s l).get s.flip = p.get s.flip := by
+  cases s <;> rfl
+
+theorem Pair.set_get (p : Pair α κ) (s : Side) : p.set s (p.get s) = p := by
+  cases s <;> rfl
+
+theorem cohP_set {c : Cfg2 α κ} {p : Pair α κ} (h : CohP c p) (s : Side) {l : KL α κ}
+    (hl : Coh (c.get s) l) : CohP c (p.set s l) := by
+  intro t
+  cases s <;> cases t <;> first | exact hl | exact h _
+
+/-- **Coherence of both containers survives every operation**, cross operations included, whatever
+the two key functions and type parameters are (they need not be related in any way). -/
+theorem coh_stepP {c : Cfg2 α κ} (eqv : α → α → Bool) {p : Pair α κ} (h : CohP c p) (op : OpP α κ) :
+    CohP c (stepP c eqv p op).1 := by
+  cases op <;> simp only [stepP] <;> try exact h
+  case on s op => exact cohP_set h s (coh_stepE eqv (h s) op)
+  case extendFrom s => split <;> [exact cohP_set h s (coh_extend (h s) _ ‹_›); exact h]
+  case iaddFrom s => split <;> [exact cohP_set h s (coh_extend (h s) _ ‹_›); exact h]
+  case extendSelf s => split <;> [exact cohP_set h s (coh_extend (h s) _ ‹_›); exact h]
+  case extendFromSlice s a b =>
+    split
+    · exact h
+    · split <;> [exact cohP_set h s (coh_extend (h s) _ ‹_›); exact h]
+
+/-- … and therefore every operation sequence of any length. -/
+theorem coh_runP {c : Cfg2 α κ} (eqv : α → α → Bool) : ∀ (ops : List (OpP α κ)) {p : Pair α κ},
+    CohP c p → CohP c (runP c eqv p ops).1
+  | [], _, h => h
+  | op :: ops, p, h => by
+    simp only [runP]
+    exact coh_runP eqv ops (coh_stepP eqv h op)
+
+/-- An operation that reports an error leaves BOTH containers exactly as they were. -/
+theorem stepP_atomic (c : Cfg2 α κ) (eqv : α → α → Bool) (p : Pair α κ) (op : OpP α κ) (e : Err)
+    (he : (stepP c eqv p op).2 = .out (.err e)) : (stepP c eqv p op).1 = p := by
+  cases op <;> simp only [stepP] at he ⊢ <;> try rfl
+  case on s op =>
+    have : (stepE (c.get s) eqv (p.get s) op).2 = .err e := by
+      injection he
+    rw [stepE_atomic _ eqv _ op e this, Pair.set_get]
+  case extendFrom s => split <;> [(split at he <;> simp_all); rfl]
+  case iaddFrom s => split <;> [(split at he <;> simp_all); rfl]
+  case extendSelf s => split <;> [(split at he <;> simp_all); rfl]
+  case extendFromSlice s a b =>
+    split
+    · rfl
+    · split <;> [(split at he <;> (try split at he) <;> simp_all); rfl]
+
+/-- **Frame.** An operation changes at most its receiver: the operand — its list AND its key index —
+is exactly as before (no shared storage, nothing moved out of it). -/
+theorem stepP_frame (c : Cfg2 α κ) (eqv : α → α → Bool) (p : Pair α κ) (op : OpP α κ) :
+    (stepP c eqv p op).1.get op.receiver.flip = p.get op.receiver.flip := by
+  cases op <;> simp only [stepP, OpP.receiver] <;> try rfl
+  case on s op => exact Pair.get_set_flip _ _ _
+  case extendFrom s => split <;> [exact Pair.get_set_flip _ _ _; rfl]
+  case iaddFrom s => split <;> [exact Pair.get_set_flip _ _ _; rfl]
+  case extendSelf s => split <;> [exact Pair.get_set_flip _ _ _; rfl]
+  case extendFromSlice s a b =>
+    split
+    · rfl
+    · split <;> [exact Pair.get_set_flip _ _ _; rfl]
+
+/-- **Handing over a KeyedList is handing over a plain list of its items.** Every cross operation
+is the single-container operation `lower p op` (whose argument is the operand's `list`, nothing
+else of the operand) on the receiver: same new state, same result. -/
+theorem stepP_lower {c : Cfg2 α κ} (eqv : α → α → Bool) {p : Pair α κ} (h : CohP c p)
+    (op : OpP α κ) (op' : Op α κ) (hl : lower p op = some op') :
+    (stepP c eqv p op).1 = p.set op.receiver (stepE (c.get op.receiver) eqv (p.get op.receiver) op').1 ∧
+    (stepP c eqv p op).2.flat = (stepE (c.get op.receiver) eqv (p.get op.receiver) op').2 := by
+  cases op <;> simp only [lower, Option.some.injEq, reduceCtorEq] at hl <;> subst hl <;>
+    simp only [stepP, OpP.receiver]
+  case on s op => simp [OutP.flat]
+  case extendFrom s =>
+    cases hx : extend (c.get s) (p.get s) (p.get s.flip).list <;> simp [stepE, step, hx, Pair.set_get, OutP.flat]
+  case iaddFrom s =>
+    cases hx : extend (c.get s) (p.get s) (p.get s.flip).list <;> simp [stepE, step, hx, Pair.set_get, OutP.flat]
+  case extendSelf s =>
+    cases hx : extend (c.get s) (p.get s) (p.get s).list <;> simp [stepE, step, hx, Pair.set_get, OutP.flat]
+  case extendFromSlice s a b =>
+    obtain ⟨r, hr, hrl⟩ := getSlice_refines (h s.flip) a b
+    rw [hr]
+    simp only [hrl]
+    cases hx : extend (c.get s) (p.get s) (pySlice (p.get s.flip).list a b) <;>
+      simp [stepE, step, hx, Pair.set_get, OutP.flat]
+  case addFrom s =>
+    cases hx : add (c.get s) (p.get s) (p.get s.flip).list <;> simp [stepE, step, hx, Pair.set_get, OutP.flat]
+  case raddFrom s =>
+    cases hx : radd (c.get s) (p.get s) (p.get s.flip).list <;> simp [stepE, step, hx, Pair.set_get, OutP.flat]
+  case eqFrom s => simp [stepE, Pair.set_get, OutP.flat]
+
+/-- **Refinement for cross operations**: against the plain-list specification `specStepE` of the
+lowered operation — when the plain operation (with the uniqueness rule under the RECEIVER's key
+function and type parameters) succeeds, the receiver holds exactly that list; when it raises,
+both containers are untouched and an error is reported. -/
+theorem stepP_refines_list {c : Cfg2 α κ} (eqv : α → α → Bool) {p : Pair α κ} (h : CohP c p)
+    (op : OpP α κ) (op' : Op α κ) (hl : lower p op = some op') :
+    match specStepE (c.get op.receiver) eqv (p.get op.receiver).list op' with
+    | some xs' => ((stepP c eqv p op).1.get op.receiver).list = xs' ∧ ∀ e, (stepP c eqv p op).2.flat ≠ .err e
+    | none => (stepP c eqv p op).1 = p ∧ ∃ e, (stepP c eqv p op).2.flat = .err e := by
+  obtain ⟨h1, h2⟩ := stepP_lower eqv h op op' hl
+  have hs := stepE_refines_list eqv (h op.receiver) op'
+  rw [h1, h2, Pair.get_set_same]
+  cases hsp : specStepE (c.get op.receiver) eqv (p.get op.receiver).list op' with
+  | some xs' => rw [hsp] at hs; exact hs
+  | none => rw [hsp] at hs; exact ⟨by rw [hs.1, Pair.set_get], hs.2⟩
+
+/-- **Nothing of the operand but its items, in order, reaches the receiver.** Replace the operand
+by ANY other coherent container with the same `list` — another key function, other type
+parameters, a key index in another order — and every operation run by the receiver gives the same
+receiver state and the same result. -/
+theorem stepP_ignores_operand_index {c c' : Cfg2 α κ} (eqv : α → α → Bool) {p p' : Pair α κ}
+    (h : CohP c p) (h' : CohP c' p') (op : OpP α κ)
+    (hc : c.get op.receiver = c'.get op.receiver) (hp : p.get op.receiver = p'.get op.receiver)
+    (hl : (p.get op.receiver.flip).list = (p'.get op.receiver.flip).list) :
+    (stepP c eqv p op).1.get op.receiver = (stepP c' eqv p' op).1.get op.receiver ∧
+    (stepP c eqv p op).2 = (stepP c' eqv p' op).2 := by
+  cases op <;> simp only [OpP.receiver] at hc hp hl <;> simp only [stepP, OpP.receiver, hc, hp, hl]
+  case on s op => simp [Pair.get_set_same]
+  case extendFrom s =>
+    cases hx : extend (c'.get s) (p'.get s) (p'.get s.flip).list <;> simp [Pair.get_set_same, hp]
+  case iaddFrom s =>
+    cases hx : extend (c'.get s) (p'.get s) (p'.get s.flip).list <;> simp [Pair.get_set_same, hp]
+  case extendSelf s =>
+    cases hx : extend (c'.get s) (p'.get s) (p'.get s).list <;> simp [Pair.get_set_same, hp]
+  case extendFromSlice s a b =>
+    obtain ⟨r, hr, hrl⟩ := getSlice_refines (h s.flip) a b
+    obtain ⟨r', hr', hrl'⟩ := getSlice_refines (h' s.flip) a b
+    rw [hr, hr']
+    simp only [hrl, hrl', hl]
+    cases hx : extend (c'.get s) (p'.get s) (pySlice (p'.get s.flip).list a b) <;>
+      simp [Pair.get_set_same, hp]
+  case addFrom s => simp [hp]
+  case raddFrom s => simp [hp]
+  case eqFrom s => simp [hp]
+  case ctorFrom s => simp [hp]
+
+/-- `a.extend(b)` / `a += b` for two KeyedLists, spelled out: it succeeds exactly when every item
+of `b` is admissible FOR `a` and the concatenation has unique keys UNDER `a`'s KEY FUNCTION; `a`
+then lists `a ++ b` and indexes the new items under `a`'s keys. `b`'s key function, type parameters
+and index do not occur. Otherwise it raises and nothing changes. -/
+theorem extendFrom_refines {c : Cfg2 α κ} (eqv : α → α → Bool) {p : Pair α κ} (h : CohP c p) (s : Side) :
+    ((∀ x ∈ (p.get s.flip).list, (c.get s).okItem x = true) ∧
+      (((p.get s).list ++ (p.get s.flip).list).map (c.get s).key).Nodup →
+      stepP c eqv p (.extendFrom s) =
+        (p.set s ⟨(p.get s).list ++ (p.get s.flip).list,
+                  (p.get s).dict ++ (p.get s.flip).list.map (fun x => ((c.get s).key x, x))⟩, .out .none)) ∧
+    (¬ ((∀ x ∈ (p.get s.flip).list, (c.get s).okItem x = true) ∧
+      (((p.get s).list ++ (p.get s.flip).list).map (c.get s).key).Nodup) →
+      ∃ e, stepP c eqv p (.extendFrom s) = (p, .out (.err e))) := by
+  simp only [stepP]
+  constructor
+  · rintro ⟨h1, h2⟩
+    rw [(extend_refines (h s) _ _).2 ⟨h1, h2, rfl⟩]
+  · intro hn
+    cases hx : extend (c.get s) (p.get s) (p.get s.flip).list with
+    | error e => exact ⟨e, rfl⟩
+    | ok l' =>
+      obtain ⟨h1, h2, _⟩ := (extend_refines (h s) _ _).1 hx
+      exact absurd ⟨h1, h2⟩ hn
+
+/-- `KeyedList[T, K](b, key=f)` from a KeyedList `b`: re-keyed with `f` and re-validated against
+`[T, K]` from scratch; `b`'s own index and key function play no role. -/
+theorem ctorFrom_refines (c : Cfg2 α κ) (eqv : α → α → Bool) (p : Pair α κ) (s : Side) :
+    stepP c eqv p (.ctorFrom s) =
+      (p, if ¬ ((p.get s.flip).list.map (c.get s).key).Nodup then .out (.err .valueError)
+          else if (p.get s.flip).list.all (c.get s).okItem = false then .out (.err .typeError)
+          else .kl ⟨(p.get s.flip).list, (p.get s.flip).list.map (fun x => ((c.get s).key x, x))⟩) := by
+  simp only [stepP, construct_refines]
+  by_cases h1 : ((p.get s.flip).list.map (c.get s).key).Nodup
+  · by_cases h2 : (p.get s.flip).list.all (c.get s).okItem = false
+    · simp [h1, h2]
+    · simp [h1, h2]
+  · simp [h1]
+
+/-! ## new containers (`+`, slices) -/
+
+/-- `newContainer` is the container whose items `step` returns. -/
+theorem newContainer_step (c : Cfg α κ) (l : KL α κ) (op : Op α κ) (r : Except Err (KL α κ))
+    (h : newContainer c l op = some r) :
+    (step c l op).2 = match r with | .ok k => .items k.list | .error e => .err e := by
+  cases op <;> simp only [newContainer, Option.some.injEq, reduceCtorEq] at h <;> simp only [step, h] <;>
+    cases r <;> rfl
+
+/-- A container built by `+` or a slice is coherent for the receiver's key function (it is
+unparameterised: `type(self)(...)`). -/
+theorem coh_newContainer (c : Cfg α κ) (l : KL α κ) (op : Op α κ) (k : KL α κ)
+    (h : newContainer c l op = some (.ok k)) : Coh { c with okItem := fun _ => true } k := by
+  cases op <;> simp only [newContainer, Option.some.injEq, reduceCtorEq] at h
+  case add xs => exact coh_ofList _ (coh_empty _) h
+  case radd xs => exact coh_ofList _ (coh_empty _) h
+  case getSlice a b => exact coh_ofList _ (coh_empty _) h
+
+/-! ## the shortcut that must not be taken -/
+
+/-- Taking over the operand's key index instead of re-keying its items is sound when the two
+containers share ONE configuration and the operand's index is in list order (true of a container
+built by the constructor / `append` / `extend` only)… -/
+theorem extendFast_sound {c : Cfg α κ} {l o : KL α κ} (hl : Coh c l) (ho : Coh c o)
+    (hord : o.dict = o.list.map (fun x => (c.key x, x))) (l' : KL α κ) :
+    extendFast l o = .ok l' ↔ extend c l o.list = .ok l' := by
+  rw [extend_refines hl]
+  unfold extendFast
+  have hcol : o.dict.any (fun q => hasKey l.dict q.1) = true ↔ ¬ ((l.list ++ o.list).map c.key).Nodup := by
+    rw [hord, List.any_map, List.any_eq_true, List.map_append, List.nodup_append]
+    constructor
+    · rintro ⟨x, hx, hk⟩ ⟨_, _, h3⟩
+      obtain ⟨y, hy, hyk⟩ := (hasKey_iff_scan hl _).1 hk
+      exact h3 _ (List.mem_map.2 ⟨y, hy, rfl⟩) _ (List.mem_map.2 ⟨x, hx, rfl⟩) hyk
+    · intro hn
+      by_contra hcon
+      apply hn
+      refine ⟨hl.keysNodup, ho.keysNodup, ?_⟩
+      intro a ha b hb hab
+      obtain ⟨y, hy, rfl⟩ := List.mem_map.1 ha
+      obtain ⟨x, hx, rfl⟩ := List.mem_map.1 hb
+      exact hcon ⟨x, hx, (hasKey_iff_scan hl _).2 ⟨y, hy, hab⟩⟩
+  by_cases hc : o.dict.any (fun q => hasKey l.dict q.1) = true
+  · have := hcol.1 hc
+    rw [List.map_append] at this
+    simp only [hc, if_true, reduceCtorEq, false_iff]
+    rintro ⟨_, h2, _⟩
+    exact this (by simpa using h2)
+  · have hnd : ((l.list ++ o.list).map c.key).Nodup := by
+      by_contra hn; exact hc (hcol.2 hn)
+    simp only [hc, Bool.false_eq_true, if_false, Except.ok.injEq]
+    constructor
+    · intro he; exact ⟨ho.typed, hnd, by rw [← he, hord]⟩
+    · rintro ⟨_, _, he⟩; rw [he, hord]
+
+private def exCfgK : Cfg (Nat × Nat) Nat := { key := (·.1), okItem := fun _ => true, asKey := fun _ => none }
+private def exCfgP : Cfg (Nat × Nat) Nat := { key := (·.2), okItem := fun _ => true, asKey := fun _ => none }
+private def exByKey : KL (Nat × Nat) Nat := ⟨[(1, 10)], [(1, (1, 10))]⟩
+private def exByPayload : KL (Nat × Nat) Nat := ⟨[(1, 5)], [(5, (1, 5))]⟩
+private def exByPayload2 : KL (Nat × Nat) Nat := ⟨[(2, 1)], [(1, (2, 1))]⟩
+
+private theorem coh_single (c : Cfg (Nat × Nat) Nat) (hc : ∀ x, c.okItem x = true) (x : Nat × Nat) :
+    Coh c ⟨[x], [(c.key x, x)]⟩ := by
+  refine ⟨by simp, ?_, by simp, fun y _ => hc y⟩
+  intro k y
+  simp only [List.mem_singleton, Prod.mk.injEq]
+  constructor
+  · rintro ⟨rfl, rfl⟩; exact ⟨rfl, rfl⟩
+  · rintro ⟨rfl, rfl⟩; exact ⟨rfl, rfl⟩
+
+/-- … and WRONG as soon as the operand is keyed by another key function, although both containers
+are coherent: (1) the shortcut admits a second item with a key the receiver already holds (the
+real `extend` raises ValueError) and leaves an incoherent container; (2) it refuses, on a clash of
+FOREIGN keys, an extension that is perfectly fine. -/
+theorem extendFast_unsound :
+    Coh exCfgK exByKey ∧ Coh exCfgP exByPayload ∧ Coh exCfgP exByPayload2 ∧
+    (∃ l', extendFast exByKey exByPayload = .ok l' ∧ ¬ Coh exCfgK l' ∧
+      extend exCfgK exByKey exByPayload.list = .error .valueError) ∧
+    (extendFast exByKey exByPayload2 = .error .valueError ∧
+      ∃ l', extend exCfgK exByKey exByPayload2.list = .ok l') := by
+  refine ⟨coh_single exCfgK (fun _ => rfl) (1, 10), coh_single exCfgP (fun _ => rfl) (1, 5),
+    coh_single exCfgP (fun _ => rfl) (2, 1), ⟨_, rfl, ?_, rfl⟩, rfl, ⟨_, rfl⟩⟩
+  intro hc
+  exact absurd hc.keysNodup (by decide)
+
+/-! non-vacuity of the two-container theorems: a coherent pair keyed differently, a cross operation
+that succeeds and one that is refused -/
+private def exPair : Pair (Nat × Nat) Nat := ⟨exByKey, exByPayload2⟩
+private def exCfg2 : Cfg2 (Nat × Nat) Nat := ⟨exCfgK, exCfgP⟩
+
+example : CohP exCfg2 exPair := by
+  intro s
+  cases s
+  · exact coh_single exCfgK (fun _ => rfl) (1, 10)
+  · exact coh_single exCfgP (fun _ => rfl) (2, 1)
+example : (stepP exCfg2 (fun a b => a == b) exPair (.extendFrom .main)).1.main =
+    ⟨[(1, 10), (2, 1)], [(1, (1, 10)), (2, (2, 1))]⟩ := by rfl
+example : (stepP exCfg2 (fun a b => a == b) exPair (.extendFrom .main)).1.other = exByPayload2 := by rfl
+example : (stepP exCfg2 (fun a b => a == b) ⟨exByKey, exByPayload⟩ (.extendFrom .main)).2 =
+    .out (.err .valueError) := by rfl
+example : lower exPair (.extendFrom .main) = some (.extend [(2, 1)]) := by rfl
 
 end SpecVerif.Props.C13
